@@ -29,8 +29,8 @@ BU == U \cup {"unreach"}                            \* plus the reserved notice 
 FieldSet == {"fromnode", "tonode", "fromservice", "toservice"}
 
 \* ---------------------------------------------------------------- patterns
-GoodPats == {"a", "b", "ab", "A", "unreach", "/a/", "/a|b/", "/a.*b/", "/(?i)a/", "/.*/", "/[ab]+/", "//"}
-BadPats  == {"/", "/[/", "/ab", "/(/", "/a)/"}
+GoodPats == {"a", "b", "ab", "A", "unreach", "/a/", "/a|b/", "/a.*b/", "/(?i)a/", "/.*/", "/[ab]+/", "//", "/a|ab/", "/a.*?/"}
+BadPats  == {"/", "/[/", "/ab", "/(/", "/a)/", "/a)|(b/"}
 AllPats  == GoodPats \cup BadPats
 
 \* Full-match language of a well-formed pattern over BU.
@@ -47,6 +47,8 @@ Lang(p) ==
     [] p = "/.*/"     -> BU
     [] p = "/[ab]+/"  -> {"a", "b", "ab"}
     [] p = "//"       -> {}
+    [] p = "/a|ab/"   -> {"a", "ab"}                   \* leftmost-first alternation must still be a FULL match
+    [] p = "/a.*?/"   -> {"a", "ab", "aXb", "axx"}     \* so must a trailing non-greedy quantifier
     [] OTHER          -> {}
 
 PatOK(p) == p \in GoodPats
